@@ -217,7 +217,7 @@ func checkC11Modes(c *Ctx) {
 			}
 			ld := describeLoop(f, hs[0], names)
 			c.Evals += len(ld.Events) * 10
-			okB := ld.Bound == "lt(i,quo(len(DATA),0x10))"
+			okB := ld.Bound == "lt(i,quo(len(DATA),0x10))" || ld.Bound == "le(add(0x10,mul(0x10,i)),len(DATA))" // block index, or byte offset with off+16 <= len
 			matched := false
 			for _, t := range c11Templates[key] {
 				if matchTemplate(ld, t) {
